@@ -261,4 +261,41 @@ P("C18", "proof", K_TR_IND + [K_TR["3"], K_TR["e3"], K_TR["noop"], K_TR["4"], K_
           "two changes without an intervening re-registration; replace() on an empty wrapper")
 PROPS["C20"]["k"] = K_TOKEN + [K_SYS["factory"]]
 
-PROPS["DEV"] = dict(level="proof", k=K_TR_IND, m=[])
+
+# ----------------------------------------------------------------------------- engine M
+from mirsym import obligations as OB   # noqa: E402
+
+
+def M(name, fn, what, functions, bounds="", replay=None, tiers=Q, kind="M"):
+    return dict(name=name, fn=fn, what=what, functions=functions, bounds=bounds, replay=replay or [], tiers=tiers, kind=kind)
+
+
+DE_FN = ["EventLoop::dispatch_events (+ closures #0, #1)"]
+DE_B = "every loop body of dispatch_events executed once from an arbitrary state (loop heads cut), all paths"
+M_DE = {
+    "pa2": M("pa2_reset", OB.ob_pa2_reset, OB.ob_pa2_reset.__doc__, DE_FN, DE_B, replay=["d3_pending_action_error_path"]),
+    "pav": M("pa_value", OB.ob_pa_value, OB.ob_pa_value.__doc__, DE_FN, DE_B, replay=["d3_pending_action_error_path"]),
+    "disp1": M("disp1_receiver", OB.ob_disp1_receiver, OB.ob_disp1_receiver.__doc__, DE_FN, DE_B),
+    "fsub": M("tokens_forget_sub", OB.ob_tokens_forget_sub, OB.ob_tokens_forget_sub.__doc__, DE_FN, DE_B),
+    "rm3": M("rm3_removed_check", OB.ob_rm3_removed_check, OB.ob_rm3_removed_check.__doc__, DE_FN, DE_B),
+    "re1": M("re1_no_guards", OB.ob_re1_no_guards, OB.ob_re1_no_guards.__doc__, DE_FN, DE_B),
+    "lc2": M("lc2_order", OB.ob_lc2_order, OB.ob_lc2_order.__doc__, DE_FN, DE_B + "; the before_sleep loop unrolled once more"),
+    "err1": M("err1", OB.ob_err1, OB.ob_err1.__doc__, DE_FN, DE_B),
+}
+
+H_FN = ["LoopHandle::remove", "LoopHandle::disable", "LoopHandle::update", "LoopHandle::enable",
+        "LoopHandle::register_dispatcher", "LoopHandle::insert_idle", "io::Async::new", "io::LoopInner::kill"]
+M_H = {
+    "remove": M("handle_remove", OB.ob_handle_remove, OB.ob_handle_remove.__doc__, H_FN[:1], "all paths (loop-free)"),
+    "disable": M("handle_disable", OB.ob_handle_disable, OB.ob_handle_disable.__doc__, H_FN[1:2], "all paths (loop-free)"),
+    "update": M("handle_update", OB.ob_handle_update, OB.ob_handle_update.__doc__, H_FN[2:3], "all paths (loop-free)"),
+    "enable": M("handle_enable", OB.ob_handle_enable, OB.ob_handle_enable.__doc__, H_FN[3:4], "all paths (loop-free)"),
+    "re2": M("re2_no_double_borrow", OB.ob_re2_no_double_borrow, OB.ob_re2_no_double_borrow.__doc__, H_FN, "all paths"),
+    "reg1": M("register_dispatcher", OB.ob_register_dispatcher, OB.ob_register_dispatcher.__doc__, H_FN[4:5], "all paths"),
+    "idles": M("idles", OB.ob_idles, OB.ob_idles.__doc__, ["EventLoop::dispatch", "EventLoop::dispatch_idles"], "idle loop unrolled twice"),
+    "insidle": M("insert_idle", OB.ob_insert_idle, OB.ob_insert_idle.__doc__,
+                 ["LoopHandle::insert_idle (+ wrapper closure)", "Idle::cancel", "<Option<F> as CancellableIdle>::cancel"], "all paths"),
+}
+
+PROPS["DEV"] = dict(level="proof", k=[], m=list(M_H.values()))
+
